@@ -296,16 +296,20 @@ def desugar_enumerate(text, log):
     """`for (i, x) in E.iter().enumerate() { B }`  ->  `let mut i: usize = 0; for x in E.iter() { B i += 1; }`
     (refused when B contains `continue`, which would skip the increment)"""
     n = 0
+    start = 0
     while True:
         masked = lex.mask(text)
-        m = re.search(r"for \((\w+), (\w+)\) in ([^\n{]+?)\.enumerate\(\) \{", masked)
+        m = re.compile(r"for \((\w+), (\w+)\) in ([^\n{]+?)\.enumerate\(\) \{").search(masked, start)
         if not m:
             break
         ob = m.end() - 1
         cb = lex.match_close(masked, ob)
         body = masked[ob:cb]
         if re.search(r"\bcontinue\b", body):
-            raise RewriteError("enumerate loop with `continue` cannot be desugared")
+            # `continue` would skip the increment: left to a per-function `sub` (or to Verus, which then refuses the loop)
+            log.hit("R11 enumerate() loop with `continue` left as is", 1)
+            start = m.end()
+            continue
         ind = re.search(r"[ \t]*$", text[:m.start()]).group(0)
         i, x, e = m.group(1), m.group(2), text[m.start(3):m.end(3)]
         text = (text[:m.start()] + "let mut %s: usize = 0;\n%sfor %s in %s {" % (i, ind, x, e)
